@@ -139,8 +139,16 @@ type story struct {
 	noises *int
 }
 
+// malformedErrors: answers of type error whose <error/> is missing or cannot
+// be decoded.  The call reports that somehow; what matters is that the session
+// goes on serving afterwards (the steps that follow show it).
+var malformedErrors = []string{"!no-error-element", "!undecodable-by", "!empty-error-element"}
+
 func (s *story) add(st step) {
 	st.Room = s.room
+	if st.Op == "error" && s.r.Intn(6) == 0 {
+		st.Cond = malformedErrors[s.r.Intn(len(malformedErrors))]
+	}
 	dress(s.r, &st)
 	s.steps = append(s.steps, st)
 }
